@@ -120,6 +120,13 @@ class CParser:
     def _parse_error(self, msg: str, coord: Coord | str | None) -> NoReturn:
         raise ParseError(f"{coord}: {msg}")
 
+    def _here(self) -> Coord | str:
+        """Location of the next token, for errors raised when it cannot start
+        what the grammar expects (the file name at the end of the input).
+        """
+        tok = self._peek()
+        return self._tok_coord(tok) if tok is not None else self.clex.filename
+
     def _push_scope(self) -> None:
         self._scope_stack.append(dict())
 
@@ -341,7 +348,7 @@ class CParser:
                     or len(spec["type"][-1].names) != 1
                     or not self._is_type_in_scope(spec["type"][-1].names[0])
                 ):
-                    coord = self.clex.filename
+                    coord = self._here()
                     for t in spec["type"]:
                         if hasattr(t, "coord"):
                             coord = t.coord
@@ -547,9 +554,7 @@ class CParser:
             typeid_paren_as_abstract and name_type == "TYPEID" and saw_paren
         ):
             if not allow_abstract:
-                tok = self._peek()
-                coord = self._tok_coord(tok) if tok is not None else self.clex.filename
-                self._parse_error("Invalid declarator", coord)
+                self._parse_error("Invalid declarator", self._here())
             decl = self._parse_abstract_declarator_opt()
             return decl, False
 
@@ -916,7 +921,7 @@ class CParser:
             break
 
         if spec is None:
-            self._parse_error("Invalid declaration", self.clex.filename)
+            self._parse_error("Invalid declaration", self._here())
 
         if not saw_type and not allow_no_type:
             self._parse_error("Missing type in declaration", first_coord)
@@ -1012,7 +1017,7 @@ class CParser:
             break
 
         if spec is None:
-            self._parse_error("Invalid specifier list", self.clex.filename)
+            self._parse_error("Invalid specifier list", self._here())
 
         if not saw_type:
             self._parse_error("Missing type in declaration", first_coord)
@@ -1537,7 +1542,7 @@ class CParser:
         elif self._peek_type() == "LBRACKET":
             decl = self._parse_abstract_array_base()
         else:
-            self._parse_error("Invalid abstract declarator", self.clex.filename)
+            self._parse_error("Invalid abstract declarator", self._here())
 
         return self._parse_decl_suffixes(decl)
 
@@ -1654,7 +1659,7 @@ class CParser:
                     stmt = c_ast.EmptyStatement(self._tok_coord(def_tok))
                 return c_ast.Default([stmt], self._tok_coord(def_tok))
             case _:
-                self._parse_error("Invalid labeled statement", self.clex.filename)
+                self._parse_error("Invalid labeled statement", self._here())
 
     # BNF: selection_statement : IF '(' expression ')' statement (ELSE statement)?
     #                          | SWITCH '(' expression ')' statement
@@ -1991,7 +1996,7 @@ class CParser:
                 coord,
             )
 
-        self._parse_error("Invalid expression", self.clex.filename)
+        self._parse_error("Invalid expression", self._here())
 
     # BNF: offsetof_member_designator : identifier_or_typeid
     #                                ('.' identifier_or_typeid | '[' expression ']')*
@@ -2153,7 +2158,7 @@ class CParser:
             return expr
         if self._accept("PERIOD"):
             return self._parse_identifier_or_typeid()
-        self._parse_error("Invalid designator", self.clex.filename)
+        self._parse_error("Invalid designator", self._here())
 
     # ------------------------------------------------------------------
     # Preprocessor-like directives
@@ -2180,7 +2185,7 @@ class CParser:
             self._expect("RPAREN")
             return c_ast.Pragma(literal, self._tok_coord(lparen))
 
-        self._parse_error("Invalid pragma", self.clex.filename)
+        self._parse_error("Invalid pragma", self._here())
 
     # BNF: pppragma_directive_list : pppragma_directive+
     def _parse_pppragma_directive_list(self) -> List[c_ast.Node]:
